@@ -996,3 +996,47 @@ Proof.
   intros H. unfold adjust_priority, if_delta, over_int32. cbn [n_eff set_eff].
   destruct (cfg_smallb c); [reflexivity|]. rewrite H. reflexivity.
 Qed.
+
+(* ------------------------------------------------------------------ timer ticks (Timer.v) *)
+From OV Require Import C10.Timer.
+
+Lemma tick_calls_le2 i st : (tick_calls i st <= 2)%nat.
+Proof. unfold tick_calls. destruct (t_conn i), (t_upexp i), (t_hbold i), (t_skew i), (sst_eqb st Waiting || t_otherw i); cbn; lia. Qed.
+
+(* a connected peer with a recent heartbeat and a tolerable clock skew: the tick does nothing *)
+Lemma tick_quiet v cs s w i :
+  t_conn i = true -> t_hbold i = false -> t_skew i = false -> run_tick v cs s w i = s.
+Proof. intros H1 H2 H3. unfold run_tick, tick_events, tick_calls. now rewrite H1, H2, H3. Qed.
+
+Lemma peer_lost_step v cs s w :
+  node_of w (fst (step v cs s (EPeerLost w))) = fst (handle_peer_lost (node_of w s)).
+Proof. rewrite step_node. unfold step_node_fn. now rewrite who_eqb_refl. Qed.
+
+(* start-up: a WAITING group whose peer never connected comes up alone exactly when the timeout has expired *)
+Lemma tick_startup v cs s w i :
+  n_st (node_of w s) = Waiting -> t_conn i = false ->
+  n_st (node_of w (run_tick v cs s w i)) = if t_upexp i then ActiveSolo else Waiting.
+Proof.
+  intros Hst Hc. unfold run_tick, tick_events, tick_calls. rewrite Hc, Hst. cbn [negb sst_eqb orb andb].
+  destruct (t_upexp i); cbn [andb repeat run]; [|exact Hst].
+  rewrite peer_lost_step. destruct (peer_lost_facts (node_of w s)) as (_ & _ & H). now rewrite H, Hst.
+Qed.
+
+(* no tick, whatever it sees, turns a STANDBY group into anything but STANDBY_ALONE -- or ACTIVE_SOLO when a
+   tracked interface is down (the documented trigger) *)
+Lemma tick_standby v cs s w i :
+  n_st (node_of w s) = Standby ->
+  let st' := n_st (node_of w (run_tick v cs s w i)) in
+  st' = Standby \/ st' = StandbyAlone \/ (st' = ActiveSolo /\ 0 < n_cnt (node_of w s)).
+Proof.
+  intros Hst. cbn zeta. unfold run_tick, tick_events.
+  pose proof (tick_calls_le2 i (n_st (node_of w s))) as Hle.
+  destruct (tick_calls i (n_st (node_of w s))) as [|[|[|k]]]; [| | |lia]; cbn [repeat run].
+  - now left.
+  - rewrite peer_lost_step. destruct (peer_lost_facts (node_of w s)) as (_ & _ & H). rewrite H, Hst.
+    destruct (Z.ltb_spec 0 (n_cnt (node_of w s))); auto.
+  - rewrite peer_lost_step.
+    destruct (peer_lost_facts (node_of w (fst (step v cs s (EPeerLost w))))) as (_ & _ & H2). rewrite H2.
+    rewrite peer_lost_step. destruct (peer_lost_facts (node_of w s)) as (_ & _ & H). rewrite H, Hst.
+    destruct (Z.ltb_spec 0 (n_cnt (node_of w s))); auto.
+Qed.
